@@ -642,11 +642,18 @@ Fixpoint prun_f (p : pstate) (cons acked : list Z) (ops : list pop)
   | o :: r => obind (pstep p o) (fun p' => prun_f p' (pconsumed p cons o) (packed acked o) r)
   end.
 
+(* the invariant behind freshness (repaired hook, fix C17-F4: the first check after a check-flag
+   reset stores TempFetchPriceID = LastFetchPriceID):
+   - an id that has been delivered and is still the last acknowledged one is the id the previous
+     check saw, so no later check takes it for new;
+   - the delivered ids are distinct acknowledged ids;
+   - before the first acknowledgement both ids are 0. *)
 Definition FInv (p : pstate) (cons acked : list Z) : Prop :=
-  (zmem (b_last (p_band p)) cons = true ->
-     b_temp (p_band p) = b_last (p_band p) \/ b_temp (p_band p) = 0) /\
-  (forall r, zmem r cons = true -> r = 0 \/ In r acked) /\
-  (b_last (p_band p) = 0 \/ In (b_last (p_band p)) acked).
+  (zmem (b_last (p_band p)) cons = true -> b_temp (p_band p) = b_last (p_band p)) /\
+  (forall r, zmem r cons = true -> In r acked) /\
+  (b_last (p_band p) = 0 \/ In (b_last (p_band p)) acked) /\
+  (b_last (p_band p) = 0 -> b_temp (p_band p) = 0) /\
+  NoDup cons /\ ~ In 0 acked.
 
 Lemma delivered_some h b r : delivered_id h b = Some r ->
   r = b_last b /\ b_valid b = true /\ b_block b <> 0 /\ h mod 20 = 0.
@@ -670,39 +677,76 @@ Proof.
   destruct (Z.eqb_spec (b_last b) (b_temp b)); cbn [negb] in Hv; [discriminate|]. repeat split; auto.
 Qed.
 
+(* the first check after a check-flag reset (first branch of the hook): nothing is validated, and
+   every request acknowledged so far counts as seen *)
+Lemma first_check h b : b_block b <> 0 -> h mod 20 = 0 -> b_check b = false ->
+  let b' := band_begin_block h b in
+  b_temp b' = b_last b /\ b_last b' = b_last b /\ b_check b' = true /\ b_valid b' = false /\
+  b_dheight b' = b_dheight b /\ b_dbool b' = b_dbool b /\ delivered_id h b' = None.
+Proof.
+  intros Hb Hm Hc. cbv zeta. unfold delivered_id, band_begin_block.
+  destruct (Z.eqb_spec (b_block b) 0); [contradiction|]. rewrite Hm, Hc. cbn. repeat split; reflexivity.
+Qed.
+
 Lemma zmem_cons x y l : zmem x (y :: l) = (x =? y) || zmem x l.
 Proof. reflexivity. Qed.
+
+Lemma zmem_In x l : zmem x l = true <-> In x l.
+Proof.
+  induction l as [|y l IH]; cbn [zmem In]; [split; [discriminate|tauto]|].
+  rewrite orb_true_iff, IH, Z.eqb_eq. split; intros [H|H]; auto.
+Qed.
+
+(* the temp id after the band hook: unchanged, or the last acknowledged id *)
+Lemma band_bb_temp h b :
+  b_temp (band_begin_block h b) = b_temp b \/ b_temp (band_begin_block h b) = b_last b.
+Proof.
+  unfold band_begin_block. destruct (b_block b =? 0); [left; reflexivity|].
+  destruct (h mod 20 =? 0); [|left; reflexivity]. destruct (b_check b); cbn [negb b_temp]; auto.
+Qed.
 
 Lemma pstep_finv p o p' cons acked :
   pstep p o = Ok p' -> ack_ok acked o -> FInv p cons acked ->
   FInv p' (pconsumed p cons o) (packed acked o).
 Proof.
-  intros Hs Hack (HK & H1 & H2). destruct o as [h|r|r rates|h m|req]; cbn [pstep pconsumed packed] in *.
+  intros Hs Hack (HK & H1 & H2 & H3 & H4 & H5). destruct o as [h|r|r rates|h m|req]; cbn [pstep pconsumed packed] in *.
   - (* Block *)
     unfold block_step in Hs. destruct (begin_block _ _ _) as [[s' d]| |]; try discriminate.
     injection Hs as <-. unfold FInv. cbn [p_band set_dbool b_last b_temp]. rewrite band_bb_last.
     destruct (delivered_id h (band_begin_block h (p_band p))) as [r|] eqn:Ed; cbn [consume].
-    + destruct (delivering_check _ _ _ Ed) as (Hr & _ & _ & _ & _ & Ht). subst r.
-      split; [intros _; left; exact Ht|]. split; [|exact H2].
-      intros r. rewrite zmem_cons. intros Hz. apply orb_prop in Hz. destruct Hz as [Hz|Hz].
-      * apply Z.eqb_eq in Hz. subst r. exact H2.
-      * apply H1. exact Hz.
-    + split; [|split; assumption]. intros Hz. specialize (HK Hz).
-      unfold band_begin_block. destruct (b_block (p_band p) =? 0); [exact HK|].
-      destruct (h mod 20 =? 0); [|exact HK]. destruct (b_check (p_band p)); cbn [b_temp]; auto.
+    + destruct (delivering_check _ _ _ Ed) as (Hr & _ & Hne & _ & _ & Ht). subst r.
+      assert (Hnew : zmem (b_last (p_band p)) cons = false).
+      { destruct (zmem (b_last (p_band p)) cons) eqn:Ez; [|reflexivity]. specialize (HK eq_refl). congruence. }
+      assert (Hin : In (b_last (p_band p)) acked).
+      { destruct H2 as [H0|Hin]; [|exact Hin]. specialize (H3 H0). congruence. }
+      split; [intros _; exact Ht|]. split; [|split; [exact H2|split; [|split; [|exact H5]]]].
+      * intros r. rewrite zmem_cons. intros Hz. apply orb_prop in Hz. destruct Hz as [Hz|Hz].
+        -- apply Z.eqb_eq in Hz. subst r. exact Hin.
+        -- apply H1. exact Hz.
+      * intros H0. rewrite Ht. exact H0.
+      * constructor; [|exact H4]. intros Hc. apply zmem_In in Hc. congruence.
+    + split; [|split; [assumption|split; [assumption|split; [|split; assumption]]]].
+      * intros Hz. specialize (HK Hz). destruct (band_bb_temp h (p_band p)) as [E|E]; rewrite E; auto.
+      * intros H0. destruct (band_bb_temp h (p_band p)) as [E|E]; rewrite E; auto.
   - (* Ack: the id is new, so it has not been delivered *)
     injection Hs as <-. destruct Hack as [Hr0 Hnew]. unfold FInv. cbn [p_band set_last b_last b_temp].
-    split; [|split].
-    + intros Hz. destruct (H1 _ Hz) as [|Hin]; [contradiction|]. contradiction.
-    + intros r' Hz. destruct (H1 _ Hz) as [|Hin]; [left; assumption|right; right; exact Hin].
+    split; [|split; [|split; [|split; [|split]]]].
+    + intros Hz. specialize (H1 _ Hz). contradiction.
+    + intros r' Hz. right. exact (H1 _ Hz).
     + right. left. reflexivity.
-  - injection Hs as <-. unfold FInv. cbn [p_band add_result b_last b_temp]. auto.
-  - destruct (f_n m =? 0); injection Hs as <-; unfold FInv; cbn [p_band add_fetch_price_records b_last b_temp]; auto.
-  - injection Hs as <-. unfold FInv. cbn [p_band]. destruct req; cbn [set_check b_last b_temp]; auto.
+    + intros H0. contradiction.
+    + exact H4.
+    + intros [E|E]; [congruence|contradiction].
+  - injection Hs as <-. unfold FInv. cbn [p_band add_result b_last b_temp]. exact (conj HK (conj H1 (conj H2 (conj H3 (conj H4 H5))))).
+  - destruct (f_n m =? 0); injection Hs as <-; unfold FInv; cbn [p_band add_fetch_price_records b_last b_temp]; exact (conj HK (conj H1 (conj H2 (conj H3 (conj H4 H5))))).
+  - injection Hs as <-. unfold FInv. cbn [p_band]. destruct req; cbn [set_check b_last b_temp]; exact (conj HK (conj H1 (conj H2 (conj H3 (conj H4 H5))))).
 Qed.
 
 Lemma finv_init : FInv pinit [] [].
-Proof. unfold FInv. cbn. split; [discriminate|]. split; [discriminate|]. left; reflexivity. Qed.
+Proof.
+  unfold FInv. cbn. split; [discriminate|]. split; [discriminate|]. split; [left; reflexivity|].
+  split; [reflexivity|]. split; [constructor|intros []].
+Qed.
 
 Lemma prun_f_inv ops : forall p cons acked p' cons' acked',
   acks_ok acked ops -> FInv p cons acked ->
@@ -714,24 +758,30 @@ Proof.
     apply (IH _ _ _ _ _ _ Ha (pstep_finv _ _ _ _ _ Hs Ha0 HF) Hr).
 Qed.
 
-(* a result is delivered a second time only by the check that follows a "first check" *)
-Theorem redelivery_only_after_reset p cons acked h r :
+(* every delivered result is new: the result of a request reaches the windows at most once *)
+Theorem fresh_always p cons acked h :
   FInv p cons acked ->
-  delivered_id h (band_begin_block h (p_band p)) = Some r -> zmem r cons = true ->
-  b_temp (p_band p) = 0 /\ b_check (p_band p) = true.
-Proof.
-  intros (HK & _ & _) Hd Hz.
-  destruct (delivering_check _ _ _ Hd) as (Hr & Hc & Hne & _). subst r.
-  destruct (HK Hz) as [Ht|Ht]; [congruence|]. split; assumption.
-Qed.
-
-Theorem fresh_outside_kf p cons acked h :
-  FInv p cons acked -> kf_C17_4 p cons (Block h) = false ->
   holds_C17_fresh cons (delivered_id h (band_begin_block h (p_band p))) = true.
 Proof.
-  intros HF Hk. unfold kf_C17_4 in Hk.
-  destruct (delivered_id h (band_begin_block h (p_band p))) as [r|] eqn:Ed; cbn [holds_C17_fresh]; [|reflexivity].
-  destruct (zmem r cons) eqn:Ez; [|reflexivity].
-  destruct (redelivery_only_after_reset p cons acked h r HF Ed Ez) as [Ht _].
-  rewrite Ht in Hk. cbn in Hk. discriminate.
+  intros (HK & _). destruct (delivered_id h (band_begin_block h (p_band p))) as [r|] eqn:Ed;
+    cbn [holds_C17_fresh]; [|reflexivity].
+  destruct (delivering_check _ _ _ Ed) as (Hr & _ & Hne & _). subst r.
+  destruct (zmem (b_last (p_band p)) cons) eqn:Ez; [|reflexivity]. specialize (HK eq_refl). congruence.
+Qed.
+
+(* over a whole history: the delivered ids are pairwise distinct and each was acknowledged *)
+Theorem delivered_once p cons acked :
+  FInv p cons acked -> NoDup cons /\ (forall r, In r cons -> In r acked /\ r <> 0).
+Proof.
+  intros (_ & H1 & _ & _ & H4 & H5). split; [exact H4|]. intros r Hin. apply zmem_In in Hin.
+  split; [exact (H1 _ Hin)|]. intros ->. exact (H5 (H1 _ Hin)).
+Qed.
+
+(* the freshness trackers ride on the same state run as the observer *)
+Lemma prun_of_prun_f ops : forall p cons acked p' cons' acked',
+  prun_f p cons acked ops = Ok (p', cons', acked') -> prun p ops = Ok p'.
+Proof.
+  induction ops as [|o ops IH]; intros p cons acked p' cons' acked' H; cbn [prun_f prun] in *.
+  - injection H as <- _ _. reflexivity.
+  - destruct (pstep p o) as [p1| |]; cbn [obind] in *; try discriminate. apply (IH _ _ _ _ _ _ H).
 Qed.
